@@ -932,7 +932,7 @@ def gen_code(rng, tier):
     yield from hand_cases()
     yield from real_fixture_cases()
     yield from bounded_cases(tier)
-    n_worlds = {"quick": 150, "oracle-thorough": 2500}.get(tier, 8000)
+    n_worlds = {"quick": 150, "oracle-thorough": 1500}.get(tier, 6000)
     per = 20 if tier == "quick" else 40
     for _ in range(n_worlds):
         w = rand_world(rng)
